@@ -285,3 +285,76 @@ Proof.
   split; [exact (proj2 (proj2 ex_s_uper))|exact (proj2 ex_s_uper_decodes)].
 Qed.
 Print Assumptions C01_primb_example.
+(* ------------------------------------------------------------------ *)
+(* ENUMERATED / BIT STRING layer (Rt/PrimA.v, Rt/PrimAProofs.v; notes/design/PrimA.md):
+   round trips of the model of the C, each also when followed by arbitrary further data *)
+From A1 Require Import Rt.Uper Rt.Oer Rt.Ext Rt.PrimA Rt.PrimAProofs.
+
+Theorem C01_prima_enum_uper_roundtrip : forall root ext adds z enc rest,
+  enum_ok root ext adds -> enum_uper root ext adds z = Some enc ->
+  enum_uper_dec root ext adds (enc ++ rest) = Some (z, rest).
+Proof. exact enum_uper_rt. Qed.
+Print Assumptions C01_prima_enum_uper_roundtrip.
+
+Theorem C01_prima_enum_oer_roundtrip : forall z rest, fits_long z = true ->
+  enum_oer_dec (enum_oer z ++ rest) = Some (z, rest).
+Proof. exact enum_oer_rt. Qed.
+Print Assumptions C01_prima_enum_oer_roundtrip.
+
+Theorem C01_prima_bits_contents_roundtrip : forall bs, bits_of_contents (bits_contents bs) = Some bs.
+Proof. exact bits_contents_rt. Qed.
+Print Assumptions C01_prima_bits_contents_roundtrip.
+
+(* what the UPER reader returns is the string the C transmits: stripped, padded to the lower bound *)
+Theorem C01_prima_bits_uper_transmitted : forall s bs enc rest, scon_ok s ->
+  bits_uper s bs = Some enc -> bits_uper_dec s (enc ++ rest) = Some (bits_sent s bs, rest).
+Proof. exact bits_uper_rt. Qed.
+Print Assumptions C01_prima_bits_uper_transmitted.
+
+Theorem C01_prima_bits_uper_roundtrip_partial : forall s bs enc rest, scon_ok s ->
+  strip_tz bs = bs ->
+  (match s with SCon lo hi _ => size_constrained hi = true -> lo <= zlen bs end) ->
+  bits_uper s bs = Some enc -> bits_uper_dec s (enc ++ rest) = Some (bs, rest).
+Proof. exact bits_uper_roundtrip_partial. Qed.
+Print Assumptions C01_prima_bits_uper_roundtrip_partial.
+
+Theorem C01_prima_bits_uper_roundtrip_refuted :
+  exists s bs enc, scon_ok s /\ bits_uper s bs = Some enc /\ bits_uper_dec s enc <> Some (bs, []).
+Proof. exact bits_uper_roundtrip_refuted. Qed.
+Print Assumptions C01_prima_bits_uper_roundtrip_refuted.
+
+Theorem C01_prima_bits_oer_roundtrip : forall s bs enc rest,
+  (match oer_fixed_size s with Some n => zlen bs = n | None => zlen bs + 8 <= rssize_max end) ->
+  bits_oer s bs = Some enc -> bits_oer_dec s (enc ++ rest) = Some (bs, rest).
+Proof. exact bits_oer_rt. Qed.
+Print Assumptions C01_prima_bits_oer_roundtrip.
+
+Theorem C01_prima_uper_roundtrip_in_stream : forall t v bits rest,
+  pty_ok t -> pval_ok false t v -> p_uper false t v = Some bits ->
+  p_uper_dec false t (bits ++ rest) = Some (v, rest).
+Proof. exact p_uper_roundtrip_in_stream. Qed.
+Print Assumptions C01_prima_uper_roundtrip_in_stream.
+
+Theorem C01_prima_uper_decode_roundtrip : forall t v bytes,
+  pty_ok t -> pval_ok false t v -> p_uper_encode false t v = Some bytes ->
+  p_uper_decode false t bytes = Some (v, zlen bytes) /\ 1 <= zlen bytes.
+Proof. exact p_uper_decode_roundtrip. Qed.
+Print Assumptions C01_prima_uper_decode_roundtrip.
+
+Theorem C01_prima_oer_roundtrip_in_stream : forall t v bs rest,
+  pty_ok_oer t -> pval_ok_oer t v -> p_oer false t v = Some bs ->
+  p_oer_dec t (bs ++ rest) = Some (v, rest).
+Proof. exact p_oer_roundtrip_in_stream. Qed.
+Print Assumptions C01_prima_oer_roundtrip_in_stream.
+
+Theorem C01_prima_leaf_ber_roundtrip_in_stream : forall l x bs rest,
+  tag_good (leaf_tag l) ->
+  match l, x with
+  | LEnum _ _ _ _, XEnum z => fits_long z = true
+  | LBits _ _ _, XBits b => True
+  | _, _ => False
+  end ->
+  p_der false (PElem (ELeaf l)) (PVElem x) = Some bs -> zlen bs <= rssize_max ->
+  p_ber_dec (PElem (ELeaf l)) (bs ++ rest) = Some (PVElem x, rest).
+Proof. exact leaf_ber_roundtrip_in_stream. Qed.
+Print Assumptions C01_prima_leaf_ber_roundtrip_in_stream.
